@@ -139,14 +139,27 @@ func runReplay(repo, verif string, con *FuncContract, o *Obligation, model strin
 	cmd.Stdout = &buf
 	cmd.Stderr = &buf
 	cmd.Run()
-	out := buf.String()
-	if len(out) > 6000 {
-		out = out[:6000] + "\n...[truncated]"
+	full := buf.String()
+	// keep the driver's own lines; drop the repository's JSON log lines
+	var keepL []string
+	for _, l := range strings.Split(full, "\n") {
+		if strings.HasPrefix(strings.TrimSpace(l), "{\"level\"") {
+			continue
+		}
+		keepL = append(keepL, l)
 	}
-	for _, l := range strings.Split(out, "\n") {
+	out := strings.Join(keepL, "\n")
+	if len(out) > 8000 {
+		out = out[:8000] + "\n...[truncated]"
+	}
+	for _, l := range keepL {
 		l = strings.TrimSpace(l)
 		if i := strings.Index(l, "REPRODUCED:"); i >= 0 && !strings.Contains(l, "NOT-REPRODUCED") {
-			return out, true, strings.TrimSpace(l[i+len("REPRODUCED:"):])
+			w := strings.TrimSpace(l[i+len("REPRODUCED:"):])
+			if len(w) > 1500 {
+				w = w[:1500] + "..."
+			}
+			return out, true, w
 		}
 	}
 	return out, false, ""
